@@ -55,6 +55,7 @@ def run(chk, repo: Repo):
     chk.rule("C16-R5", "projections and soft-thresholding are the textbook expressions", floor=3)
     _r1(chk, repo)
     _r1_breakdown(chk, repo)
+    _r1_result_returned(chk, repo)
     _r2(chk, repo)
     _r3(chk, repo)
     _r4_r5(chk, repo)
@@ -178,6 +179,25 @@ def _r1_breakdown(chk, repo):
         chk.add("C16-R1", f"{ci.qual}.solve/breakdown-guard", exact and not thresh, site(repo, clamps[0].ast), f"`{d} = eps` only under `{d} == 0`",
                 f"the curvature `{d}` is replaced by eps under {[tx for tx, _ in gs if d in tx]}, not only when it is exactly zero: `{d}` scales with the square of the "
                 f"operator/preconditioner, so for a differently scaled but equally well conditioned problem the step length is clamped and the iteration stagnates", clamps[0].ast)
+
+
+def _r1_result_returned(chk, repo):
+    """(P)CGLS hand back the iterate the loop produced: after the iteration loop every path ends in the `return (x, k)`. The post-loop diagnostics
+    (negative curvature, `shrink <= sqrt(tol)`) are heuristics inherited from the reference implementation, where they only set a flag: `shrink` compares
+    the final norm with the LARGEST iterate norm, which starts at |x0|, so a raising exit there refuses regular problems started far from the solution."""
+    for cls in ("CGLS", "PCGLS"):
+        ci = repo.cls(f"{SOLVER}:{cls}")
+        fn = repo.method(ci, "solve")[1]
+        loops = [i for i, st in enumerate(fn.body) if isinstance(st, (ast.While, ast.For))]
+        if not loops:
+            raise AnchorError(f"{cls}.solve: iteration loop not found")
+        after = fn.body[loops[-1] + 1:]
+        raises = [n for st in after for n in ast.walk(st) if isinstance(n, ast.Raise)]
+        rets = [st for st in after if isinstance(st, ast.Return)]
+        chk.add("C16-R1", f"{ci.qual}.solve/result-returned", bool(rets) and not raises, site(repo, raises[0] if raises else fn),
+                "no raising exit after the iteration loop: the computed iterate is returned",
+                f"`{unparse(raises[0])[:60] if raises else 'no return'}` after the iteration loop: the solver refuses to hand back the iterate it computed whenever a post-loop "
+                f"heuristic fires (the shrink test compares with the largest iterate norm, which starts at |x0|), i.e. on regular problems started far from the solution", raises[0] if raises else fn)
 
 
 def _r2(chk, repo):
